@@ -413,7 +413,10 @@ GUARD_FUNCTIONS = [
     'emplace_into_reallocation_end', 'emplace_into_reallocation', 'shrink_to_size', 'resize_with', 'request_capacity',
     'erase_range', 'erase_to_end', 'swap_default', 'swap_unequal_no_propagate', 'swap', 'checked_allocate',
     'checked_calculate_new_capacity', 'wipe',
+    'at',                      # the two public overloads (class small_vector): the out_of_range test of C01
 ]
+# decision points that live in the public class rather than in small_vector_base
+PUBLIC_GUARD_FUNCTIONS = {'at'}
 
 
 def extract_conditions(body):
@@ -628,8 +631,9 @@ def gen_guards(h, report):
     base = load_guard_baseline()
     current = {}          # key -> [(cond, lean | None, why)]
     seen_keys = set()
+    scope_pub = h.class_scope('small_vector')
     for fn in GUARD_FUNCTIONS:
-        fs = list(h.find_functions(fn, scope))
+        fs = list(h.find_functions(fn, scope_pub if fn in PUBLIC_GUARD_FUNCTIONS else scope))
         if not fs:
             report['untranslatable'].append(dict(item='guards of ' + fn, why='definition not found',
                                                  names=[g['name'] for k, gs in base.items() if k == fn or re.match(re.escape(fn) + r'_\d+$', k) for g in gs]))
